@@ -185,16 +185,6 @@ def analyze(template: BoundTemplate, *, include_partials: bool) -> TemplateAnaly
                 for name, span in _extract_filters(expr, template_name):
                     filters[name].append(span)
 
-        # Update the template scope from node.template_scope()
-        for ident in node.template_scope():
-            scope.add(ident)
-            locals.add(
-                Variable(
-                    segments=[ident],
-                    span=Span(template_name, ident.token.start_index),
-                )
-            )
-
         if partial := node.partial_scope():
             partial_name = (
                 partial.name
@@ -250,6 +240,17 @@ def analyze(template: BoundTemplate, *, include_partials: bool) -> TemplateAnaly
             ):
                 _visit(child, template_name, scope, just_globals=just_globals)
             scope.pop()
+
+        # Update the template scope from node.template_scope(). A name is assigned
+        # when its tag has been rendered, after a capture block's own children.
+        for ident in node.template_scope():
+            scope.add(ident)
+            locals.add(
+                Variable(
+                    segments=[ident],
+                    span=Span(template_name, ident.token.start_index),
+                )
+            )
 
     for node in template.nodes:
         _visit(node, template.name, root_scope)
@@ -319,16 +320,6 @@ async def analyze_async(
                 for name, span in _extract_filters(expr, template_name):
                     filters[name].append(span)
 
-        # Update the template scope from node.template_scope()
-        for ident in node.template_scope():
-            scope.add(ident)
-            locals.add(
-                Variable(
-                    segments=[ident],
-                    span=Span(template_name, ident.token.start_index),
-                )
-            )
-
         if partial := node.partial_scope():
             partial_name = (
                 partial.name
@@ -384,6 +375,17 @@ async def analyze_async(
             ):
                 await _visit(child, template_name, scope, just_globals=just_globals)
             scope.pop()
+
+        # Update the template scope from node.template_scope(). A name is assigned
+        # when its tag has been rendered, after a capture block's own children.
+        for ident in node.template_scope():
+            scope.add(ident)
+            locals.add(
+                Variable(
+                    segments=[ident],
+                    span=Span(template_name, ident.token.start_index),
+                )
+            )
 
     for node in template.nodes:
         await _visit(node, template.name, root_scope)
